@@ -211,6 +211,34 @@ func (b *BMC) Events() []Event {
 	return append([]Event(nil), b.Log...)
 }
 
+// Last returns a copy of the most recent event (nil if none).
+func (b *BMC) Last() *Event {
+	b.mu.Lock()
+	defer b.mu.Unlock()
+	if len(b.Log) == 0 {
+		return nil
+	}
+	e := b.Log[len(b.Log)-1]
+	return &e
+}
+
+// Len is the number of logged events.
+func (b *BMC) Len() int {
+	b.mu.Lock()
+	defer b.mu.Unlock()
+	return len(b.Log)
+}
+
+// Since returns a copy of the events from index i on.
+func (b *BMC) Since(i int) []Event {
+	b.mu.Lock()
+	defer b.mu.Unlock()
+	if i > len(b.Log) {
+		i = len(b.Log)
+	}
+	return append([]Event(nil), b.Log[i:]...)
+}
+
 func (b *BMC) ResetLog() {
 	b.mu.Lock()
 	b.Log = nil
